@@ -9,7 +9,7 @@ from ..common import Result
 ID = "C11"
 LEVEL = "exploration"
 WORLDS = [(q, "plain") for q in (1, 3)]
-BUDGET = {"quick": dict(cases=500), "thorough": dict(cases=10000)}
+BUDGET = {"quick": dict(cases=1000), "thorough": dict(cases=30000)}
 MIN_NONTRIVIAL = {"quick": 1000, "thorough": 15000}
 BLOB = (400, 1500)
 RULE = ("Hypothesis byte-backed generator: 1-4 command lines with multi-unit responses (DATA_NEXT loops with buffer edits, TEST with description, command "
